@@ -43,7 +43,7 @@ EXPORT double t32tod(Torus32 x) {
 //
 // "travailler sur 63 bits au lieu de 64, car dans nos cas pratiques, c'est plus précis"
 EXPORT Torus32 approxPhase(Torus32 phase, int32_t Msize){
-    uint64_t interv = ((UINT64_C(1)<<63)/Msize)*2; // width of each intervall
+    uint64_t interv = ((UINT64_C(1)<<63)/uint32_t(Msize))*2; // width of each intervall
     uint64_t half_interval = interv/2; // begin of the first intervall
     uint64_t phase64 = (uint64_t(phase)<<32) + half_interval;
     //floor to the nearest multiples of interv
@@ -57,7 +57,7 @@ EXPORT Torus32 approxPhase(Torus32 phase, int32_t Msize){
 //
 // "travailler sur 63 bits au lieu de 64, car dans nos cas pratiques, c'est plus précis"
 EXPORT int32_t modSwitchFromTorus32(Torus32 phase, int32_t Msize){
-    uint64_t interv = ((UINT64_C(1)<<63)/Msize)*2; // width of each intervall
+    uint64_t interv = ((UINT64_C(1)<<63)/uint32_t(Msize))*2; // width of each intervall
     uint64_t half_interval = interv/2; // begin of the first intervall
     uint64_t phase64 = (uint64_t(phase)<<32) + half_interval;
     //floor to the nearest multiples of interv
@@ -69,7 +69,7 @@ EXPORT int32_t modSwitchFromTorus32(Torus32 phase, int32_t Msize){
 //
 // "travailler sur 63 bits au lieu de 64, car dans nos cas pratiques, c'est plus précis"
 EXPORT Torus32 modSwitchToTorus32(int32_t mu, int32_t Msize){
-    uint64_t interv = ((UINT64_C(1)<<63)/Msize)*2; // width of each intervall
+    uint64_t interv = ((UINT64_C(1)<<63)/uint32_t(Msize))*2; // width of each intervall
     uint64_t phase64 = mu*interv;
     //floor to the nearest multiples of interv
     return phase64>>32;
